@@ -25,6 +25,7 @@
  *   ids                        over all live slots: ids <-> tag/ref one-to-one, ANtagref2id(ANid2tagref(id)) = id
  *                                                                                      -> ok <#distinct ids> | bad ..
  *   atype2tag t / tag2atype g  ANatype2tag / ANtag2atype                               -> ok v
+ *   key t r / cmp i j / codec v   AN_CREATE_KEY+AN_KEY2TYPE+AN_KEY2REF / ANIanncmp / UINT16ENCODE+UINT16DECODE
  *   dfputlabel ttag tref hex   DFANputlabel, DFANlastref                               -> ok ref | fail
  *   dfputdesc ttag tref hex    DFANputdesc, DFANlastref                                -> ok ref | fail
  *   dfgetlabel ttag tref maxlen / dfgetdesc ..   DFANgetlabel / DFANgetdesc            -> ok hex(maxlen bytes) | fail
@@ -39,6 +40,9 @@
 #include <unistd.h>
 #include <sys/wait.h>
 #include "hdf.h"
+#include "hdf_priv.h"
+#include "mfan_priv.h"
+extern int ANIanncmp(void *i, void *j, int value);
 
 #define NS 64
 static int32 fid = FAIL, anid = FAIL;
@@ -218,6 +222,25 @@ static void run_history(const char *dir, long hno, char **lines, long *lnos, lon
                 seen[n] = ids[i]; st[n] = t; sr[n] = r; n++;
             }
             if (bad[0]) printf(" bad %s\n", bad); else printf(" ok %d\n", n);
+        }
+        else if (!strcmp(op, "key")) {          /* AN_CREATE_KEY / AN_KEY2TYPE / AN_KEY2REF on (type, ref) */
+            sscanf(line, "%*s %ld %ld", &a, &b);
+            int32 t = (int32)a; uint16 r = (uint16)b;
+            int32 k = AN_CREATE_KEY(t, r);
+            printf(" ok %d %d %d\n", (int)k, (int)AN_KEY2TYPE(k), (int)AN_KEY2REF(k));
+        }
+        else if (!strcmp(op, "cmp")) {          /* ANIanncmp */
+            sscanf(line, "%*s %ld %ld", &a, &b);
+            int32 x = (int32)a, y = (int32)b;
+            printf(" ok %d\n", ANIanncmp(&x, &y, 0));
+        }
+        else if (!strcmp(op, "codec")) {        /* UINT16ENCODE then UINT16DECODE */
+            sscanf(line, "%*s %ld", &a);
+            uint8 bb[2], *p = bb; uint16 v = (uint16)a, w = 0;
+            UINT16ENCODE(p, v);
+            p = bb;
+            UINT16DECODE(p, w);
+            printf(" ok %d %d %d\n", (int)bb[0], (int)bb[1], (int)w);
         }
         else if (!strcmp(op, "atype2tag")) { sscanf(line, "%*s %ld", &a); printf(" ok %d\n", (int)ANatype2tag((ann_type)a)); }
         else if (!strcmp(op, "tag2atype")) { sscanf(line, "%*s %ld", &a); printf(" ok %d\n", (int)ANtag2atype((uint16)a)); }
